@@ -21,8 +21,7 @@ func intrinsicName(fn *ssa.Function) string {
 	}
 	switch n {
 	case "vs_assume", "vs_assert", "vs_old", "vs_all", "vs_any", "vs_fresh", "vs_modifies",
-		"vs_visited", "vs_allVisited", "vs_has", "vs_unchanged", "vs_cover", "vs_top", "vs_same", "vs_imp",
-		"vs_keyIn", "vs_strIn", "vs_matches":
+		"vs_visited", "vs_cover", "vs_same":
 		return n
 	}
 	return ""
@@ -127,6 +126,10 @@ func (x *Exec) staticCall(fr *Frame, st *State, ins ssa.Instruction, cc *ssa.Cal
 	}
 	args := x.args(fr, st, cc)
 	full := callee.String()
+	if callee.Name() == "init" && callee.Pkg != nil && x.root != nil && callee.Pkg != x.root.fn.Pkg {
+		// initialisers of other packages cannot reach this package's globals
+		return
+	}
 	if callee.Name() == "ssa:deferstack" {
 		fr.regs[res] = intLit(0)
 		return
@@ -139,7 +142,7 @@ func (x *Exec) staticCall(fr *Frame, st *State, ins ssa.Instruction, cc *ssa.Cal
 		x.inlineCall(fr, st, ins, callee, clo, args, res)
 		return
 	}
-	if c := x.eng.Contracts[callee]; c != nil && clo == nil {
+	if c := x.eng.Contracts[callee]; c != nil && clo == nil && !c.Inline {
 		x.contractCall(fr, st, ins, c, args, cc.Args, res)
 		return
 	}
@@ -276,6 +279,11 @@ func usesOld(fn *ssa.Function, seen map[*ssa.Function]bool) bool {
 // st, with old referring to state old.
 func (x *Exec) evalGhost(fr *Frame, gf *ssa.Function, args, oldArgs []Term, st, old *State) Term {
 	x.eng.ensureBuilt(gf)
+	if x.ghostDepth == 0 {
+		x.vc.lets = map[string][]letDef{}
+	}
+	x.ghostDepth++
+	defer func() { x.ghostDepth-- }()
 	run := func(as []Term, s *State, shared map[ssa.Value]Term, pass1 bool) Term {
 		nf := x.newFrame(gf, fr)
 		nf.spec = true
@@ -555,8 +563,8 @@ func (x *Exec) frameCheckLVal(fr *Frame, st *State, lv *LVal, what string, pos t
 		x.frameCheckRef(fr, st, lv.ptr, what, pos)
 		return
 	}
-	if strings.HasPrefix(lv.ptr.S, "ref!") && x.dry == 0 {
-		// allocated in this unit: fresh by construction (ref!N = top+1 > top0)
+	if strings.HasPrefix(lv.ptr.S, "ref!") || strings.HasPrefix(lv.ptr.S, "mref!") {
+		return // allocated in this unit: fresh by construction (ref = top+1 > top0)
 	}
 	var alts []Term
 	alts = append(alts, lt(x.top0, lv.ptr))
